@@ -11,4 +11,11 @@ VERIF_TARGET=${VERIF_TARGET:-/verif/target} python3 tools/vcheck.py $P "$@" > /t
 git -C /repo checkout -- .
 cp /verif/evidence/$P.json /tmp/seed_${S}_evidence.json 2>/dev/null
 git -C /verif checkout -- evidence/$P.json 2>/dev/null
+python3 - "$D/meta.json" "$rc" /tmp/seed_$S.log <<'PY'
+import json,sys,re
+mp,rc,log=sys.argv[1:4]
+m=json.load(open(mp)); t=open(log).read()
+m["detected_by"]={"exit":int(rc),"harnesses":sorted(set(re.findall(r"^  harness=(\S+)",t,re.M))),"summary":(re.findall(r"^C\d\d tier=.*$",t,re.M) or [""])[-1]}
+json.dump(m,open(mp,"w"),indent=1)
+PY
 echo "seed $S property $P: exit $rc"; grep -E "^VIOLATION|^  harness|^BROKEN|^INCONCLUSIVE|tier=" /tmp/seed_$S.log | head -12
